@@ -56,7 +56,7 @@ theorem parseHead_no_panic (u : Bytes → Option Url) (h : Bytes) : parseHead fa
 
 theorem classify_errors (legacy : Bool) (h : Head) (e : HttpError) (he : classify legacy h = .error e) :
     e = .unsupportedTransferEncoding ∨ e = .malformedCookieHeader ∨ e = .invalidContentLength := by
-  unfold classify at he
+  unfold classify classifyWith at he
   simp only at he
   split at he
   · cases he; simp
